@@ -176,7 +176,7 @@ def judge(case, stats=None):
 
 @st.composite
 def cases(draw, nvar):
-  design = draw(rtl_gen.designs(ff=draw(st.booleans()), max_steps=6))
+  design = draw(rtl_gen.designs(ff=draw(st.booleans()), max_steps=6, ifcs=draw(st.booleans()), deep_rel=draw(st.sampled_from([1, 2, 3])), conn_bias=draw(st.sampled_from([0, 1, 2, 3])), struct_bias=draw(st.sampled_from([0, 1]))))
   variants = [None]
   for i in range(nvar - 1):
     variants.append({"seed": draw(st.integers(0, 2 ** 30)), "conn_style": True, "perm_stmts": True,
@@ -194,6 +194,7 @@ def run_shard(ctx):
   def t(case):
     if ctx.out_of_time(): return
     ctx.count()
+    for f_ in rtl_gen.features(case["design"]): ctx.label(f_)
     stats = {}
     v = judge(case, stats)
     if stats.get("big"): ctx.label("net_3plus_members_2_levels")
